@@ -519,6 +519,8 @@ class StereoCondensedReactionGraph(StereoMolGraph, CondensedReactionGraph):
         :param mol_graphs: list of MolGraph objects
         :return: Returns Combined MolGraph
         """
+        # the graphs are iterated more than once
+        mol_graphs = tuple(mol_graphs)
         graph = cls(super().compose(mol_graphs))
         for mol_graph in mol_graphs:
             graph._atom_stereo_change.update(
